@@ -657,4 +657,164 @@ theorem jkvs_ren (o : Opts) : ∀ (kvs : List (Str × Val)), wfK kvs = true →
       simpa [joinItem_eq] using this
 end
 
+/-! ### Part 4: the column-ordered tree is well-formed and `pyEq` to the tree -/
+
+theorem nodupKeys_iff : ∀ (kvs : List (Str × Val)), nodupKeys kvs = true ↔ (keysOf kvs).Nodup
+  | [] => by simp [nodupKeys, keysOf]
+  | (k, v) :: rest => by
+    have ih := nodupKeys_iff rest
+    simp only [nodupKeys, Bool.and_eq_true, Bool.not_eq_true', List.contains_eq_mem,
+      decide_eq_false_iff_not, ih]
+    simp [keysOf, List.nodup_cons]
+
+theorem lookup_isSome_iff : ∀ (kvs : List (Str × Val)) (k : Str),
+    (Val.lookup k kvs).isSome = true ↔ k ∈ keysOf kvs
+  | [], k => by simp [Val.lookup, keysOf]
+  | (k', v) :: rest, k => by
+    have ih := lookup_isSome_iff rest k
+    simp only [Val.lookup, keysOf, List.map_cons, List.mem_cons] at ih ⊢
+    split
+    · rename_i e; simp [e]
+    · rename_i e; simp [e, ih]
+
+theorem keysOf_colOrder : ∀ (cols : List (Str × Nat)) (kvs : List (Str × Val)),
+    keysOf (colOrder cols kvs) = (colKeys cols).filter (fun k => (Val.lookup k kvs).isSome)
+  | [], _ => rfl
+  | (k, w) :: cols, kvs => by
+    have ih := keysOf_colOrder cols kvs
+    simp only [colOrder, colKeys, List.map_cons, List.filter_cons] at ih ⊢
+    cases hl : Val.lookup k kvs with
+    | none => simpa using ih
+    | some v => simp only [keysOf, List.map_cons] at ih ⊢; simp [ih]
+
+theorem nodupKeys_colOrder {cols : List (Str × Nat)} (kvs : List (Str × Val)) (h : (colKeys cols).Nodup) :
+    nodupKeys (colOrder cols kvs) = true := by
+  rw [nodupKeys_iff, keysOf_colOrder]
+  exact List.Nodup.sublist List.filter_sublist h
+
+theorem length_colOrder {cols : List (Str × Nat)} {kvs : List (Str × Val)} (hc : (colKeys cols).Nodup)
+    (hn : nodupKeys kvs = true) (hk : ∀ p ∈ kvs, p.1 ∈ colKeys cols) :
+    (colOrder cols kvs).length = kvs.length := by
+  have h1 : (keysOf (colOrder cols kvs)).Nodup := (nodupKeys_iff _).1 (nodupKeys_colOrder kvs hc)
+  have h2 : (keysOf kvs).Nodup := (nodupKeys_iff _).1 hn
+  have hp := (List.perm_ext_iff_of_nodup h1 h2).2 (by
+    intro k
+    rw [keysOf_colOrder, List.mem_filter, lookup_isSome_iff]
+    constructor
+    · exact fun h => h.2
+    · intro h
+      refine ⟨?_, h⟩
+      simp only [keysOf, List.mem_map] at h
+      obtain ⟨p, hp, rfl⟩ := h
+      exact hk p hp)
+  have := hp.length_eq
+  simpa [keysOf] using this
+
+theorem wfK_of_mem : ∀ (kvs : List (Str × Val)), (∀ p ∈ kvs, wf p.2 = true) → wfK kvs = true
+  | [], _ => rfl
+  | (k, v) :: rest, h => by
+    simp only [wfK, Bool.and_eq_true]
+    exact ⟨h (k, v) (by simp), wfK_of_mem rest (fun p hp => h p (by simp [hp]))⟩
+
+theorem wf_orderRec {cols : List (Str × Nat)} (hc : (colKeys cols).Nodup) {x : Val} (hw : wf x = true) :
+    wf (orderRec cols x) = true := by
+  cases x with
+  | dict c kvs =>
+    simp only [wf, Bool.and_eq_true] at hw
+    simp only [orderRec, wf, Bool.and_eq_true]
+    exact ⟨wfK_of_mem _ (fun p hp => wfK_mem kvs hw.1 p (colOrder_mem cols kvs p hp)), nodupKeys_colOrder kvs hc⟩
+  | _ => exact hw
+
+theorem wfL_map_orderRec {cols : List (Str × Nat)} (hc : (colKeys cols).Nodup) :
+    ∀ (xs : List Val), wfL xs = true → wfL (xs.map (orderRec cols)) = true
+  | [], _ => rfl
+  | x :: xs, h => by
+    simp only [wfL, Bool.and_eq_true] at h
+    simp only [List.map_cons, wfL, Bool.and_eq_true]
+    exact ⟨wf_orderRec hc h.1, wfL_map_orderRec hc xs h.2⟩
+
+theorem keysOf_pairOrderK (o : Opts) : ∀ (kvs : List (Str × Val)), keysOf (pairOrderK o kvs) = keysOf kvs
+  | [] => rfl
+  | (k, v) :: kvs => by
+    have := keysOf_pairOrderK o kvs
+    simp only [keysOf] at this
+    simp [pairOrderK, keysOf, this]
+
+mutual
+theorem wf_pairOrder (o : Opts) : ∀ (t : Val), wf t = true → wf (pairOrder o t) = true
+  | .none, h => h
+  | .bool _, h => h
+  | .int _, h => h
+  | .flt _, h => h
+  | .str _, h => h
+  | .list c xs, h => by
+    simp only [wf] at h
+    rcases pairSel_cases o xs with hg | ⟨c0, cols, hsel, hcols⟩
+    · rw [pairOrder_list_general hg]
+      simp only [wf]
+      exact wfL_pairOrder o xs h
+    · rw [pairOrder_list_pair hsel]
+      simp only [wf]
+      exact wfL_map_orderRec (pairCols_inv hcols).2 xs h
+  | .dict c kvs, h => by
+    simp only [wf, Bool.and_eq_true] at h
+    simp only [pairOrder, wf, Bool.and_eq_true]
+    refine ⟨wfK_pairOrder o kvs h.1, ?_⟩
+    rw [nodupKeys_congr _ _ (keysOf_pairOrderK o kvs)]
+    exact h.2
+theorem wfL_pairOrder (o : Opts) : ∀ (xs : List Val), wfL xs = true → wfL (pairOrderL o xs) = true
+  | [], _ => rfl
+  | x :: xs, h => by
+    simp only [wfL, Bool.and_eq_true] at h
+    simp only [pairOrderL, wfL, Bool.and_eq_true]
+    exact ⟨wf_pairOrder o x h.1, wfL_pairOrder o xs h.2⟩
+theorem wfK_pairOrder (o : Opts) : ∀ (kvs : List (Str × Val)), wfK kvs = true → wfK (pairOrderK o kvs) = true
+  | [], _ => rfl
+  | (k, v) :: kvs, h => by
+    simp only [wfK, Bool.and_eq_true] at h
+    simp only [pairOrderK, wfK, Bool.and_eq_true]
+    exact ⟨wf_pairOrder o v h.1, wfK_pairOrder o kvs h.2⟩
+end
+
+theorem pairOrder_list_shape (o : Opts) (c : Cls) (xs : List Val) :
+    ∃ ys, pairOrder o (.list c xs) = .list c ys := by
+  rcases pairSel_cases o xs with hg | ⟨c0, cols, hsel, _⟩
+  · exact ⟨_, pairOrder_list_general hg c⟩
+  · exact ⟨_, pairOrder_list_pair hsel c⟩
+
+/-- **the reader on the exported text, every layout**: `json.loads(x.to_json(…))` is the
+column-ordered tree with class tags forgotten and (under `skip_empty_arrays`) empty containers
+dropped -/
+theorem jsonDecode_toJson (o : Opts) (t : Val) (hw : wf t = true) (hd : depth t ≤ 111) :
+    jsonDecode (toJson o t) = some (erase (dropEmptyIf o (pairOrder o t))) := by
+  have hout := jpretty_ren o t hw 0 (by omega)
+  unfold toJson
+  rcases hout with ⟨hs, he, hnil⟩ | ⟨_, hr⟩
+  · simp only [hnil, List.isEmpty_nil, if_true]
+    unfold dropEmptyIf
+    simp only [hs, if_true]
+    cases t with
+    | list c xs =>
+      obtain ⟨ys, hys⟩ := pairOrder_list_shape o c xs
+      rw [hys] at he ⊢
+      simp only [prune, isEmptyContainer] at he ⊢
+      cases hpx : pruneList ys with
+      | nil => simp [isDict, erase, eraseList]; decide
+      | cons a b => rw [hpx] at he; simp at he
+    | dict c kvs =>
+      simp only [pairOrder, prune, isEmptyContainer] at he ⊢
+      cases hpx : pruneKvs (pairOrderK o kvs) with
+      | nil => simp [isDict, erase, eraseKvs]; decide
+      | cons a b => rw [hpx] at he; simp at he
+    | none => simp [pairOrder, prune, isEmptyContainer] at he
+    | bool b => simp [pairOrder, prune, isEmptyContainer] at he
+    | int i => simp [pairOrder, prune, isEmptyContainer] at he
+    | flt r => simp [pairOrder, prune, isEmptyContainer] at he
+    | str x => simp [pairOrder, prune, isEmptyContainer] at he
+  · have hne : (pretty o 0 t).isEmpty = false := by
+      have := Ren_ne_nil hr
+      cases h : pretty o 0 t <;> simp_all
+    simp only [hne, Bool.false_eq_true, if_false]
+    rw [jsonDecode_ren hr, dec_erase _ (wf_dropEmptyIf o _ (wf_pairOrder o t hw))]
+
 end N0.Json
